@@ -13,7 +13,6 @@ import (
 	"sync/atomic"
 	"time"
 
-	"github.com/ja7ad/otp"
 	rt "github.com/ja7ad/otp/internal/verifrt"
 	"github.com/ja7ad/otp/internal/verifrt/vsync"
 	"github.com/ja7ad/otp/verifharness/sched"
@@ -260,7 +259,7 @@ func HashValue(v any) uint64 {
 // Globals returns per-variable digests of every package-level variable of package otp.
 func Globals() map[string]uint64 {
 	out := map[string]uint64{}
-	for name, ptr := range otp.VerifGlobals() {
+	for name, ptr := range allGlobals() {
 		out[name] = HashValue(ptr)
 	}
 	return out
@@ -268,7 +267,7 @@ func Globals() map[string]uint64 {
 
 // IsPoolVar says whether a package-level variable is (or only contains) scratch pools.
 func IsPoolVar(name string) bool {
-	t := reflect.TypeOf(otp.VerifGlobals()[name])
+	t := reflect.TypeOf(allGlobals()[name])
 	return t != nil && t.Elem() == reflect.TypeOf(vsync.Pool{})
 }
 
